@@ -41,6 +41,176 @@ def aff_to_bits(aff, width):
     return tuple(bits)
 
 
+FT_MAX = 12          # at most 2^12 table entries
+
+
+def _bit_atoms(b, out):
+    if bit_is_const(b):
+        return True
+    if b == TBIT or not isinstance(b, tuple):
+        return False
+    if b[0] == "b":
+        out.add(b[1])
+        return True
+    if b[0] == "x":
+        out |= set(b[1])
+        return True
+    return False
+
+
+def _bit_val(b, env):
+    if bit_is_const(b):
+        return b
+    if b[0] == "b":
+        return env[b[1]]
+    v = b[2]
+    for n in b[1]:
+        v ^= env[n]
+    return v
+
+
+def ftab_of(v, extra_atoms=()):
+    """the value as an explicit function table over the frame bits it is made of (None if that is not known or too large)"""
+    if not isinstance(v, IntV):
+        return None
+    if v.ftab is not None and not extra_atoms:
+        return v.ftab
+    if v.is_const() and not extra_atoms:
+        return ((), (v.lo,))
+    if v.ftab is not None:
+        return ftab_extend(v.ftab, tuple(sorted(set(v.ftab[0]) | set(extra_atoms))))
+    atoms = set(extra_atoms)
+    w, signed = INT_TYPES[v.ty]
+    if v.bits is not None:
+        for b in v.bits:
+            if not _bit_atoms(b, atoms):
+                return None
+        if len(atoms) > FT_MAX:
+            return None
+        al = tuple(sorted(atoms))
+        vals = []
+        for m in range(1 << len(al)):
+            env = {n: (m >> i) & 1 for i, n in enumerate(al)}
+            x = 0
+            for i, b in enumerate(v.bits):
+                if _bit_val(b, env):
+                    x |= 1 << i
+            if signed and x >> (w - 1):
+                x -= 1 << w
+            vals.append(x)
+        return (al, tuple(vals))
+    aff = v.affine()
+    if aff is not None:
+        for a in aff.t:
+            if a[0] == "b":
+                atoms.add(a[1])
+            elif a[0] == "x":
+                atoms |= set(a[1])
+            else:
+                return None
+        if len(atoms) > FT_MAX:
+            return None
+        al = tuple(sorted(atoms))
+        vals = []
+        for m in range(1 << len(al)):
+            env = {n: (m >> i) & 1 for i, n in enumerate(al)}
+            x = aff.c
+            for a, k in aff.t.items():
+                x += k * (env[a[1]] if a[0] == "b" else _bit_val(a, env))
+            vals.append(x)
+        return (al, tuple(vals))
+    if v.is_const():
+        return ftab_extend(((), (v.lo,)), tuple(sorted(extra_atoms)))
+    return None
+
+
+def ftab_extend(ft, atoms):
+    """re-express a table over a superset of its atoms"""
+    a0, v0 = ft
+    if tuple(a0) == tuple(atoms):
+        return ft
+    pos = [atoms.index(a) for a in a0]
+    vals = []
+    for m in range(1 << len(atoms)):
+        i0 = 0
+        for j, p in enumerate(pos):
+            if (m >> p) & 1:
+                i0 |= 1 << j
+        vals.append(v0[i0])
+    return (tuple(atoms), tuple(vals))
+
+
+def ftab_pointwise(op, a, b, ty):
+    """result table of a binary integer operation applied entry by entry (None entries: overflow / division by zero / undefined input)"""
+    fa, fb = ftab_of(a), ftab_of(b)
+    if fa is None or fb is None:
+        return None
+    atoms = tuple(sorted(set(fa[0]) | set(fb[0])))
+    if len(atoms) > FT_MAX:
+        return None
+    fa, fb = ftab_extend(fa, atoms), ftab_extend(fb, atoms)
+    w, signed = INT_TYPES[ty]
+    tlo, thi = ty_range(ty)
+    mask = (1 << w) - 1
+    out = []
+    for x, y in zip(fa[1], fb[1]):
+        if x is None or y is None:
+            out.append(None)
+            continue
+        try:
+            if op == "Add":
+                r = x + y
+            elif op == "Sub":
+                r = x - y
+            elif op == "Mul":
+                r = x * y
+            elif op == "Div":
+                r = None if y == 0 else _tdiv(x, y)
+            elif op == "Rem":
+                r = None if y == 0 else int(math.fmod(x, y))
+            elif op == "BitAnd":
+                r = (x & mask) & (y & mask)
+            elif op == "BitOr":
+                r = (x & mask) | (y & mask)
+            elif op == "BitXor":
+                r = (x & mask) ^ (y & mask)
+            elif op == "Shl":
+                r = None if not 0 <= y < w else (x << y) & mask
+            elif op == "Shr":
+                r = None if not 0 <= y < w else (x >> y)
+            else:
+                return None
+        except (OverflowError, ValueError):
+            r = None
+        if r is not None and op in ("BitAnd", "BitOr", "BitXor", "Shl") and signed and r >> (w - 1):
+            r -= 1 << w
+        if r is not None and not (tlo <= r <= thi):
+            r = None          # the operation overflows under this assignment
+        out.append(r)
+    return (atoms, tuple(out))
+
+
+def ftab_mux(bit, a, b):
+    """IntV: `a` where the bit expression is 1, `b` where it is 0 (as an explicit function table)"""
+    if not (isinstance(a, IntV) and isinstance(b, IntV)) or a.ty != b.ty:
+        return None
+    atoms = set()
+    if not _bit_atoms(bit, atoms):
+        return None
+    fa, fb = ftab_of(a), ftab_of(b)
+    if fa is None or fb is None:
+        return None
+    al = tuple(sorted(atoms | set(fa[0]) | set(fb[0])))
+    if len(al) > FT_MAX:
+        return None
+    fa, fb = ftab_extend(fa, al), ftab_extend(fb, al)
+    vals = []
+    for m in range(1 << len(al)):
+        env = {n: (m >> i) & 1 for i, n in enumerate(al)}
+        vals.append(fa[1][m] if _bit_val(bit, env) else fb[1][m])
+    return IntV(a.ty, None, None, None, None, a.deps | b.deps, None, None, None, (al, tuple(vals)))
+
+
 def make_int(ty, bits=None, lo=None, hi=None, aff=None, deps=frozenset(), term=None):
     w, signed = INT_TYPES[ty]
     tlo, thi = ty_range(ty)
@@ -56,6 +226,27 @@ def make_int(ty, bits=None, lo=None, hi=None, aff=None, deps=frozenset(), term=N
 
 
 def int_binop(op, a, b, ty):
+    r = _int_binop(op, a, b, ty)
+    # explicit function tables (from constant-table lookups) are carried through arithmetic entry by entry
+    if (a.ftab is not None or b.ftab is not None):
+        checked = op.endswith("WithOverflow")
+        base = op[:-len("WithOverflow")] if checked else op
+        if base in ("Add", "Sub", "Mul", "Div", "Rem", "BitAnd", "BitOr", "BitXor", "Shl", "Shr"):
+            ft = ftab_pointwise(base, a, b, ty)
+            if ft is not None:
+                res = r[0] if checked else r
+                if isinstance(res, IntV):
+                    defined = [x for x in ft[1] if x is not None]
+                    if defined:
+                        nr = IntV(ty, res.bits, min(defined), max(defined), res.aff, res.deps | _deps(a, b), None, res.term, None, ft)
+                        if checked:
+                            ovf = BoolV(False) if len(defined) == len(ft[1]) else BoolV(None, None, _deps(a, b))
+                            return (nr, ovf)
+                        return nr
+    return r
+
+
+def _int_binop(op, a, b, ty):
     """a, b IntV (already resolved).  Returns IntV of type ty for arithmetic/bit ops, BoolV for comparisons,
     for *WithOverflow ops returns (IntV, BoolV overflow)"""
     checked = op.endswith("WithOverflow")
@@ -194,6 +385,16 @@ def _tdiv(a, b):
 
 
 def compare(op, a, b):
+    if (a.ftab is not None or b.ftab is not None):
+        fa, fb = ftab_of(a), ftab_of(b)
+        if fa is not None and fb is not None and len(set(fa[0]) | set(fb[0])) <= FT_MAX:
+            atoms = tuple(sorted(set(fa[0]) | set(fb[0])))
+            fa, fb = ftab_extend(fa, atoms), ftab_extend(fb, atoms)
+            f = {"Eq": lambda x, y: x == y, "Ne": lambda x, y: x != y, "Lt": lambda x, y: x < y, "Le": lambda x, y: x <= y,
+                 "Gt": lambda x, y: x > y, "Ge": lambda x, y: x >= y}[op]
+            rs = {f(x, y) for x, y in zip(fa[1], fb[1]) if x is not None and y is not None}
+            if len(rs) == 1:
+                return BoolV(rs.pop(), ("cmp", op, a, b), frozenset())
     deps = _deps(a, b)
     val = None
     disjoint = False
@@ -270,6 +471,23 @@ def bool_not(a):
 
 
 def cast_int(a, to):
+    r = _cast_int(a, to)
+    if a.ftab is not None and isinstance(r, IntV):
+        w, signed = INT_TYPES[to]
+        vals = []
+        for x in a.ftab[1]:
+            if x is None:
+                vals.append(None)
+                continue
+            y = x & ((1 << w) - 1)
+            if signed and y >> (w - 1):
+                y -= 1 << w
+            vals.append(y)
+        return IntV(to, r.bits, r.lo, r.hi, r.aff, r.deps, r.sid, r.term, None, (a.ftab[0], tuple(vals)))
+    return r
+
+
+def _cast_int(a, to):
     """IntToInt cast (also bool/char -> int)"""
     w, signed = INT_TYPES[to]
     tlo, thi = ty_range(to)
